@@ -6,10 +6,13 @@ import (
 	"encoding/json"
 	"errors"
 	"fmt"
+	"go/token"
 	"go/types"
 	"os"
 	"os/exec"
 	"path/filepath"
+	"sort"
+	"strings"
 	"syscall"
 	"time"
 
@@ -33,10 +36,16 @@ type Behav struct {
 	Salt string `json:"salt,omitempty"`
 	// Imports: render a reference to these package paths (exercises the import block).
 	Imports []string `json:"imports,omitempty"`
+	// Probe: names looked up through Package.Type / Constant / Function by the "observe" mode.
+	Probe []string `json:"probe,omitempty"`
 }
 
 type GenSpec struct {
-	Name  string           `json:"name"`
+	Name string `json:"name"`
+	// Real: use the generator registered under this name in gengo's registry (deepcopy, runtimedoc, partialstruct).
+	Real bool `json:"real,omitempty"`
+	// Proto: use pipeline.ProtoGen (no custom New; the registered prototype carries non-zero state).
+	Proto bool             `json:"proto,omitempty"`
 	Alias bool             `json:"alias,omitempty"`
 	Pkg   map[string]Behav `json:"pkg,omitempty"` // by package path
 	Def   Behav            `json:"def"`
@@ -61,6 +70,18 @@ func Build(specs []GenSpec) []gengo.Generator {
 	var out []gengo.Generator
 	for _, gs := range specs {
 		gs := gs
+		if gs.Real {
+			rg := gengo.GetRegisteredGenerators(gs.Name)
+			if len(rg) != 1 {
+				panic("generator not registered: " + gs.Name)
+			}
+			out = append(out, rg[0])
+			continue
+		}
+		if gs.Proto {
+			out = append(out, &pipeline.ProtoGen{Dirty: true, Counter: 41, Seen: map[string]bool{"Shared1": true}})
+			continue
+		}
 		states := map[string]*state{}
 		st := func(pkg string) *state {
 			if s, ok := states[pkg]; ok {
@@ -107,6 +128,21 @@ func Build(specs []GenSpec) []gengo.Generator {
 				})
 			}
 			switch bh.Mode {
+			case "observe":
+				observe(c, bh, gs.Name, named)
+			case "stateful":
+				// everything here depends on per-instance state: a leaked instance changes the output
+				if !inst.Helper {
+					inst.Helper = true
+					c.RenderT("// helper of @g, once per instance\nfunc helper@gid() int { return @n }\n\n", snippet.Arg("g", snippet.Block(gs.Name)), snippet.Arg("gid", snippet.Block(sanitize(gs.Name))), snippet.Arg("n", snippet.Block(fmt.Sprint(len(inst.Seen)))))
+				}
+				if inst.Seen[name] {
+					c.RenderT("// @g: @n already seen by this instance\n", snippet.Arg("g", snippet.Block(gs.Name)), snippet.Arg("n", snippet.Block(name)))
+					return nil
+				}
+				inst.Seen[name] = true
+				render(c, bh, name)
+				c.RenderT("// @g call #@k of this instance\n\n", snippet.Arg("g", snippet.Block(gs.Name)), snippet.Arg("k", snippet.Block(fmt.Sprint(inst.Calls))))
 			case "render", "defer-error", "kill-defer":
 				render(c, bh, name)
 			case "nothing", "alias-only", "alias-ignore-nothing":
@@ -335,3 +371,85 @@ func (l *limitedBuf) Write(p []byte) (int, error) {
 	return len(p), nil
 }
 func (l *limitedBuf) String() string { return string(l.b) }
+
+func sanitize(s string) string {
+	b := []byte(s)
+	for i, c := range b {
+		if !(c >= 'a' && c <= 'z' || c >= 'A' && c <= 'Z' || c >= '0' && c <= '9') {
+			b[i] = '_'
+		}
+	}
+	return string(b)
+}
+
+// observe renders everything gengo hands to a generator for one type, so that any order dependence or
+// wrong attribution inside gengo shows up as different output bytes.
+func observe(c gengo.Context, bh Behav, gen string, named *types.Named) {
+	obj := named.Obj()
+	pkg := c.Package("")
+	tags, doc := c.Doc(obj)
+	var tk []string
+	for k, v := range tags {
+		tk = append(tk, fmt.Sprintf("%s=%v", k, v))
+	}
+	sort.Strings(tk)
+	c.RenderT("// @g observes @n: @fp\n// tags: @tags\n// doc: @doc\n",
+		snippet.Arg("g", snippet.Block(gen)), snippet.Arg("n", snippet.Block(obj.Name())), snippet.Arg("fp", snippet.Block(pipeline.TypeFingerprint(named))),
+		snippet.Arg("tags", snippet.Block(strings.Join(tk, " "))), snippet.Arg("doc", snippet.Block(strings.Join(doc, " | "))))
+	// lookups by name (must never depend on map iteration order)
+	vals := map[string]string{}
+	for _, n := range bh.Probe {
+		if t := pkg.Type(n); t != nil {
+			vals["type:"+n] = fmt.Sprintf("%s at line %d", t.Type().Underlying().String(), pkg.Position(t.Pos()).Line)
+		}
+		if k := pkg.Constant(n); k != nil {
+			vals["const:"+n] = k.Val().ExactString()
+		}
+		if f := pkg.Function(n); f != nil {
+			vals["func:"+n] = f.Type().String()
+		}
+	}
+	// table sizes, methods and imports - counted over hand-written files only: generated files are part of the
+	// package on the next run, and what a generator adds there must not feed back into what it observes
+	own := func(pos token.Pos) bool {
+		return !strings.HasPrefix(filepath.Base(pkg.Position(pos).Filename), "zz_generated.")
+	}
+	nt, nc, nf := 0, 0, 0
+	for _, t := range pkg.Types() {
+		if own(t.Pos()) {
+			nt++
+		}
+	}
+	for _, k := range pkg.Constants() {
+		if own(k.Pos()) {
+			nc++
+		}
+	}
+	for _, f := range pkg.Functions() {
+		if own(f.Pos()) {
+			nf++
+		}
+	}
+	vals["ntypes"], vals["nconsts"], vals["nfuncs"] = fmt.Sprint(nt), fmt.Sprint(nc), fmt.Sprint(nf)
+	var ms []string
+	for _, m := range pkg.MethodsOf(named, true) {
+		if own(m.Pos()) {
+			ms = append(ms, m.Name())
+		}
+	}
+	sort.Strings(ms)
+	vals["methods"] = strings.Join(ms, ",")
+	var ips []string
+	for ip, p := range pkg.Imports() {
+		if strings.Contains(ip, ".") { // module-local / third-party imports of the hand-written files
+			ips = append(ips, fmt.Sprintf("%s:%v", ip, p != nil))
+		}
+	}
+	sort.Strings(ips)
+	vals["imports"] = strings.Join(ips, ",")
+	// a map-valued Value with many keys: the dumper must emit it in a fixed order
+	c.RenderT("var _ = @v\n\n", snippet.Arg("v", snippet.Value(vals)))
+	for _, ip := range bh.Imports {
+		c.RenderT("var _ @t\n\n", snippet.Arg("t", snippet.ID(ip)))
+	}
+}
